@@ -1792,7 +1792,16 @@ fn c07_case(rep: &mut Report, w: &Watch, a: &Runtype, b: &Runtype, defs: &[Named
                                     }) {
                                         Eng::Ok(true) => {}
                                         Eng::Ok(false) => all_assignable = false,
-                                        _ => undecided = true,
+                                        _ => {
+                                            // the engine refuses the question (e.g. a multi-part template literal on
+                                            // the right): a probe value that is an exact value of the member and no
+                                            // value of the excluded type shows that the member is only partly covered
+                                            if vals.iter().any(|x| matches!(rm::rt_exact(m, &dm, x), Ok(true)) && matches!(rm::rt_open(b, &dm, x), Ok(false))) {
+                                                all_assignable = false;
+                                            } else {
+                                                undecided = true;
+                                            }
+                                        }
                                     }
                                 }
                                 if !all_assignable {
